@@ -79,6 +79,8 @@ type Obligation struct {
 	Vars    map[string]string // input name -> SMT term, for model projection
 	Trusted bool
 	RInfo   *ReplayInfo
+	Harness string
+	HarnessPkg string
 }
 
 // Unit is one verification unit (a function under contract, or a lemma).
@@ -103,6 +105,12 @@ type Unit struct {
 	problems []string
 	inlined  map[string]bool
 	usedContracts map[string]bool
+	defs     []taggedDef // definitions of opaque predicates
+}
+
+type taggedDef struct {
+	pred    string
+	formula string
 }
 
 func newUnit(P *Program, C *Contracts, name string) *Unit {
@@ -195,6 +203,7 @@ type Frame struct {
 	freeVars map[*ssa.FreeVar]*Val
 	closureMap map[string]*ssa.MakeClosure
 	allow   map[string]*allowedSet // modifies clause evaluated at entry (nil: no frame reasoning)
+	callResults map[string]ssa.Value
 }
 
 type deferredCall struct {
